@@ -248,8 +248,8 @@ fn check_sequence(case: &Case, ev: &mut CaseEv) -> CheckResult {
             }
         }
         ps = collect_params(&net);
-        if ps.iter().any(|(_, t)| tens::flat(t).iter().any(|v| !v.is_finite())) {
-            ev.discard = Some("non-finite trained weights");
+        if ps.iter().any(|(_, t)| tens::flat(t).iter().any(|v| !v.is_finite() || v.abs() > 1e3)) {
+            ev.discard = Some("training blew the weights up (non-finite or > 1e3)");
             return Ok(());
         }
     }
@@ -277,6 +277,11 @@ fn check_sequence(case: &Case, ev: &mut CaseEv) -> CheckResult {
     let rps = to_ref_params(&ps);
     let xd: Vec<f64> = x.iter().map(|v| *v as f64).collect();
     let rf = ref_forward(spec, &rps, &xd, &[]);
+    if rf.outs.iter().any(|o| o.iter().any(|v| !v.is_finite() || v.abs() > 1e15)) {
+        // beyond the single-precision range the operators are not comparable
+        ev.discard = Some("intermediate values beyond 1e15");
+        return Ok(());
+    }
     let out = tens::flat(&pred);
     let rout = rf.outs.last().unwrap();
     ensure!(out.len() == rout.len(), "prediction has {} elements, reference {}", out.len(), rout.len());
